@@ -194,6 +194,7 @@ def run_selftest(prop: str, repo: str, mutants: List[Mutant], floor: int, jobs: 
         shutil.rmtree(scratch, ignore_errors=True)
     results.append(rename_locals_twin(prop, repo))
     results.append(commute_twin(prop, repo))
+    results.extend(refactor_twins(prop, repo))
     if mutants:
         with ProcessPoolExecutor(max_workers=jobs) as ex:
             results.extend(ex.map(_one, [(prop, repo, m) for m in mutants]))
@@ -207,6 +208,32 @@ def run_selftest(prop: str, repo: str, mutants: List[Mutant], floor: int, jobs: 
         raise AnalysisError(f"checker self-test: only {len(applied)} of {len(results)} mutants could be applied "
                             f"(floor {floor}); anchors have moved")
     return summary
+
+
+def refactor_twins(prop: str, repo: str):
+    """Behaviour-preserving maintenance edits written by independent sub-agents (selftest/refactors/<prop>-refactor-<i>.diff:
+    temporaries introduced / inlined, statements reordered, idioms swapped, helpers extracted; each was confirmed equivalent
+    by the unedited tests and an output digest). The check must be silent on every one that still applies."""
+    import glob
+    import subprocess
+    out = []
+    here = os.path.dirname(os.path.abspath(__file__))
+    for p in sorted(glob.glob(os.path.join(here, "refactors", f"{prop}-refactor-*.diff"))):
+        name = "twin:" + os.path.basename(p)[:-5]
+        scratch = make_scratch(repo)
+        try:
+            r = subprocess.run(["patch", "-p1", "-s", "--no-backup-if-mismatch", "-i", p], cwd=scratch, capture_output=True, text=True)
+            if r.returncode != 0:
+                out.append((name, "not-applied", "the tree has moved on"))
+                continue
+            try:
+                v, k = run_prop_on(prop, scratch)
+                out.append((name, "ok" if not v else "twin-fired", "; ".join(f"{o.rule}/{o.clause} {o.construct}" for o in v[:3])))
+            except Exception as e:
+                out.append((name, "analysis-error", str(e)))
+        finally:
+            shutil.rmtree(scratch, ignore_errors=True)
+    return out
 
 
 # ---------------------------------------------------------------------------------------------------
